@@ -4,7 +4,7 @@ import re
 
 from . import core
 from .common import Built
-from .inpkg import Profile, check_profile
+from .inpkg import Profile, check_profile, check_corpus
 
 FIELDS = ("code", "loc", "range", "dcd", "body", "ct", "subj", "filt", "link", "cl", "crange")
 _re_field = re.compile(r" (code|loc|range|dcd|body|ct|subj|filt|link|cl|crange)=")
@@ -81,11 +81,17 @@ def http_check(o, tier, prop, profiles, view, rule, n_quick=250, n_thorough=8000
     if monitors_prefix is not None:
         mons = MonitorSet(monitors_prefix, extra_monitors)
     n = n_quick if tier == "quick" else n_thorough
+    if prop not in CORPUS_DONE:
+        CORPUS_DONE.add(prop)
+        check_corpus(o, prof, prop, mons)
     for pr in profiles:
         for st in stores:
             check_profile(o, prof, "gen", {"VERIF_SEED": o.seed, "VERIF_N": n, "VERIF_PROFILE": pr, "VERIF_STORE": st},
                           "reg-%s-%s" % (pr, st), mons, nontrivial=nontrivial, keep=keep_line)
     prof.cleanup()
+
+
+CORPUS_DONE = set()
 
 
 class MonitorSet:
@@ -157,6 +163,30 @@ def check_C16(o, tier):
                monitors_prefix="C16.", extra_monitors=("C08.cross-repo", "C07.refs-exact"))
 
 
-CHECKS = {"C01": check_C01, "C02": check_C02, "C03": check_C03, "C04": check_C04, "C07": check_C07, "C08": check_C08,
+def check_C10(o, tier):
+    o.add_audit(core.audit("C10", tier == "thorough"))
+    # the same histories on the three stores against one model: Mem = Dir = MemOverDir; restarts; layout monitors on the directory
+    http_check(o, tier, "C10", ["restart"], make_view(fields=("code", "dcd", "body", "ct")), RULE % "restart, mix, rofs", monitors_prefix="C10.",
+               n_quick=200, n_thorough=6000)
+    http_check(o, tier, "C10", ["mix"], make_view(fields=("code", "dcd", "body", "ct")), RULE % "restart, mix, rofs", monitors_prefix="C10.",
+               n_quick=200, n_thorough=6000)
+    http_check(o, tier, "C10", ["rofs", "upload"], make_view(fields=("code", "dcd", "body", "ct")), RULE % "restart, mix, rofs, upload", monitors_prefix="C10.",
+               n_quick=150, n_thorough=4000, stores=("dir",))
+
+
+def check_C14(o, tier):
+    o.add_audit(core.audit("C14", tier == "thorough"))
+    # file-system half: a read-only directory store and a memory store over a directory never change the directory
+    http_check(o, tier, "C14", ["rofs"], make_view(fields=("code", "dcd", "body")), RULE % "rofs, switches" +
+               "; in profile rofs content is built on a writable directory store which is then reopened read-only or under a memory overlay: "
+               "a recursive snapshot (names, sizes, hashes, mtimes, modes) of the root is compared after every request, collection and restart",
+               monitors_prefix="C14.", n_quick=300, n_thorough=8000, stores=("dir",))
+    http_check(o, tier, "C14", ["mix", "upload"], make_view(fields=("code",)), RULE % "rofs, switches, mix, upload", monitors_prefix="C14.",
+               n_quick=150, n_thorough=4000, stores=("memdir",))
+    http_check(o, tier, "C14", ["switches"], make_view(fields=("code", "dcd", "body")), RULE % "rofs, switches", monitors_prefix="C14.",
+               n_quick=250, n_thorough=8000)
+
+
+CHECKS = {"C10": check_C10, "C14": check_C14, "C01": check_C01, "C02": check_C02, "C03": check_C03, "C04": check_C04, "C07": check_C07, "C08": check_C08,
           "C15": check_C15, "C16": check_C16}
 PROFILES = {"reg": reg_profile}
